@@ -2,3 +2,5 @@ import FggsModel.Basic
 import FggsModel.Semiring
 import FggsModel.Scc
 import FggsModel.Interp
+import FggsModel.Graph
+import FggsModel.Replace
